@@ -12,6 +12,10 @@
           pycardano/serialization.py OrderedSet.append (de-duplication by str(item));
           pycardano/crypto/bip32.py BIP32ED25519PrivateKey.sign as byte-level arithmetic over an abstract
           group (Section Ed).
+          build(): the two places where the builder itself extends what has to be witnessed — UTxOs taken by coin
+          selection from input addresses / potential inputs, and collateral picked by _set_collateral_return when the
+          transaction runs Plutus or reference scripts and none was given ([selection], [after_build]); Plutus scripts
+          count for is_smart / self.scripts (they have no key leaves).
    Python sets are lists modulo order and repetition (membership is what is compared).
    External primitives (BLAKE2b, SHA-512, NaCl Ed25519, the curve) are Section variables. *)
 From Coq Require Import NArith String List Bool.
@@ -176,7 +180,10 @@ Record bdesc := mkB {
   b_certs : list cert;
   b_withdrawals : list cred;          (* Address.from_primitive(k) of every key of self.withdrawals *)
   b_voters : list voter;
-  b_witness_override : option N
+  b_witness_override : option N;
+  b_plutus : list bytes;              (* script hashes of the Plutus members of all_scripts (held in _inputs_to_scripts /
+                                         _minting_ / _withdrawal_ / _certificate_script_to_redeemers), however supplied *)
+  b_plutus_reference : list bytes     (* script hashes of the Plutus members of self._reference_scripts *)
 }.
 
 (* the property all_scripts (a dict keyed by script hash: compared as a set) *)
@@ -348,6 +355,8 @@ Fixpoint oset_wits (seen l : list wit) : list wit :=
   | w :: r => if existsb (wit_eqb w) seen then oset_wits seen r else w :: oset_wits (w :: seen) r
   end.
 
+Definition nilb {A} (l : list A) : bool := match l with [] => true | _ => false end.
+
 Section Sign.
   Variable SH : nscript -> bytes.                      (* script_hash: BLAKE2b-224 of 0x00 || CBOR of the native script *)
   Variable H28 : bytes -> bytes.                       (* BLAKE2b-224 *)
@@ -385,37 +394,70 @@ Section Sign.
 
   (* build_and_sign(signing_keys, auto_required_signers=auto, force_skeys=force) on a builder whose fields are b
      and whose body serializes to body_bytes: the vkey witnesses of the returned transaction.
-     Two steps may fill required_signers first (scenarios of this model have native scripts only):
+     Two steps may fill required_signers first:
        build_and_sign: auto_required_signers and self.scripts and not self.required_signers
                        -> every given key becomes a required signer (self.scripts: reference scripts do not count);
        build:          is_smart (= bool(self.all_scripts): reference scripts DO count) and auto_required_signers is not
-                       False and self.required_signers is None -> the key hashes of inputs and collateral.
-     (When _reference_scripts is non-empty and no collateral was given, _set_collateral_return afterwards picks
-      collateral among self.inputs; that adds no key hash to the required set and is not modelled.) *)
+                       False and self.required_signers is None -> the key hashes of inputs and collateral
+                       (AFTER coin selection, BEFORE _set_collateral_return picks collateral).
+     Plutus scripts are members of all_scripts / scripts like native ones. *)
   Definition set_required_signers (b : bdesc) (rs : list bytes) : bdesc :=
     mkB (b_inputs b) (b_collateral b) rs (b_native_scripts b) (b_attached b)
         (b_reference_scripts b) (b_input_scripts b) (b_refin_scripts b) (b_mint b)
-        (b_certs b) (b_withdrawals b) (b_voters b) (b_witness_override b).
+        (b_certs b) (b_withdrawals b) (b_voters b) (b_witness_override b) (b_plutus b) (b_plutus_reference b).
+  (* the Plutus members of self.scripts: all_scripts minus the hashes of _reference_scripts *)
+  Definition plutus_scripts (b : bdesc) : list bytes :=
+    filter (fun h => negb (memb h (b_plutus_reference b))) (b_plutus b).
+  Definition is_smart (b : bdesc) : bool := negb (nilb (all_scripts b)) || negb (nilb (b_plutus b)).
+  Definition has_scripts (b : bdesc) : bool := negb (nilb (scripts SH b)) || negb (nilb (plutus_scripts b)).
   Definition after_auto (auto : option bool) (keys : list skey) (b : bdesc) : bdesc :=
-    let is_smart := negb (match all_scripts b with [] => true | _ => false end) in
-    let has_scripts := negb (match scripts SH b with [] => true | _ => false end) in
-    let unset := match b_required_signers b with [] => true | _ => false end in
+    let unset := nilb (b_required_signers b) in
     if unset then
       match auto with
       | Some true =>
-          if has_scripts then
+          if has_scripts b then
             match keys with
             | [] => b                       (* required_signers = [] : not None, left alone by build *)
             | _ => set_required_signers b (map key_hash keys)
             end
-          else if is_smart then set_required_signers b (input_vkey_hashes b) else b
-      | None => if is_smart then set_required_signers b (input_vkey_hashes b) else b
+          else if is_smart b then set_required_signers b (input_vkey_hashes b) else b
+      | None => if is_smart b then set_required_signers b (input_vkey_hashes b) else b
       | Some false => b
       end
     else b.
 
-  Definition build_and_sign_witnesses (b : bdesc) (auto : option bool) (force : bool) (keys : list skey) (body_bytes : bytes) : list wit :=
-    sign_witnesses (builder_required (after_auto auto keys b)) force keys (H32 body_bytes).
+  (* What build() itself adds to the transaction (the values come from the implementation's run: which UTxOs the
+     selectors / the collateral search pick depends on amounts and sizes that this slice does not model):
+       sel_inputs      payment credentials of the UTxOs coin selection appended to self.inputs;
+       sel_collateral  ... of the UTxOs _set_collateral_return appended to self.collaterals (taken from the inputs,
+                       the potential inputs or the wallet at the collateral return address). *)
+  Record selection := mkSel { sel_inputs : list cred; sel_collateral : list cred }.
+  Definition no_selection : selection := mkSel [] [].
+  Definition add_inputs (l : list cred) (b : bdesc) : bdesc :=
+    mkB (b_inputs b ++ l) (b_collateral b) (b_required_signers b) (b_native_scripts b) (b_attached b)
+        (b_reference_scripts b) (b_input_scripts b) (b_refin_scripts b) (b_mint b)
+        (b_certs b) (b_withdrawals b) (b_voters b) (b_witness_override b) (b_plutus b) (b_plutus_reference b).
+  Definition add_collateral (l : list cred) (b : bdesc) : bdesc :=
+    mkB (b_inputs b) (b_collateral b ++ l) (b_required_signers b) (b_native_scripts b) (b_attached b)
+        (b_reference_scripts b) (b_input_scripts b) (b_refin_scripts b) (b_mint b)
+        (b_certs b) (b_withdrawals b) (b_voters b) (b_witness_override b) (b_plutus b) (b_plutus_reference b).
+  (* _set_collateral_return looks for collateral only when the witness set ships a Plutus script or _reference_scripts
+     is non-empty (native or Plutus), and only when self.collaterals is empty *)
+  Definition collateral_wanted (b : bdesc) : bool :=
+    negb (nilb (plutus_scripts b)) || negb (nilb (b_reference_scripts b)) || negb (nilb (b_plutus_reference b)).
+  Definition picks_collateral (b : bdesc) : bool := collateral_wanted b && nilb (b_collateral b).
+  (* the builder's fields when build() returns: coin selection, then the automatic required signers, then collateral *)
+  Definition after_build (auto : option bool) (keys : list skey) (sel : selection) (b : bdesc) : bdesc :=
+    add_collateral (sel_collateral sel) (after_auto auto keys (add_inputs (sel_inputs sel) b)).
+
+  (* build_and_sign recomputes _build_required_vkeys() on the builder as build() left it *)
+  Definition build_and_sign_witnesses (b : bdesc) (auto : option bool) (force : bool) (keys : list skey)
+             (sel : selection) (body_bytes : bytes) : list wit :=
+    sign_witnesses (builder_required (after_build auto keys sel b)) force keys (H32 body_bytes).
+  (* the number of placeholder witnesses in the fake transaction of the LAST fee estimate of build()
+     (_add_change_and_fee runs after _set_collateral_return) *)
+  Definition fee_witness_count (b : bdesc) (auto : option bool) (keys : list skey) (sel : selection) : N :=
+    witness_count (after_build auto keys sel b).
 End Sign.
 
 (* ------------------------------------------------------------------ MODEL: BIP32ED25519PrivateKey.sign *)
